@@ -146,6 +146,19 @@ def prepare(d, seed, names):
             u.query_qualities = s.query_qualities
             o.write(u)
     files["A_unaligned"] = ub
+    # a haplotype list in which three phase sets tie for the largest block of chr1 (and two on chr2)
+    with pysam.AlignmentFile(ub, check_sq=False) as f:
+        rn = sorted({s.query_name for s in f.fetch(until_eof=True)})
+    tl = os.path.join(A, "tie_list.tsv")
+    with open(tl, "w") as f:
+        f.write("#readname\thaplotype\tphaseset\tchromosome\n")
+        for i, n in enumerate(rn[:10]):
+            chrom = "chr1" if i < 6 else "chr2"
+            ps = (100, 200, 300)[i // 2] if i < 6 else (700, 800)[(i - 6) // 2]
+            f.write(f"{n}\tH{1 + i % 2}\t{ps}\t{chrom}\n")
+        for n in rn[10:]:
+            f.write(f"{n}\tnone\tnone\tchr1\n")
+    files["A_tie_list"] = tl
     files["L"] = linked_world(os.path.join(d, "L"), seed + 3)
     # the same VCF with four predefined INFO keys used but not declared (the header is completed on output)
     und = os.path.join(A, "undeclared.vcf")
@@ -206,6 +219,7 @@ def scenarios(files, names):
         {"id": "compare-multiway", "cmd": "compare", "names": names, "args": {"vcfs": files["cmp"], "kw": {"ignore_sample_name": True}}},
         {"id": "stats", "cmd": "stats", "names": names, "args": {"vcf": files["A_phased"]}},
         {"id": "split", "cmd": "split", "names": names, "args": {"bam": files["A_unaligned"], "list": files["A_list"]}},
+        {"id": "split-largest-block-tie", "cmd": "split", "names": ["100", "200", "300"], "args": {"bam": files["A_unaligned"], "list": files["A_tie_list"], "kw": {"only_largest_block": True}}},
         {"id": "find-snv-candidates", "cmd": "find_snv", "names": names, "chroms": chroms, "args": {"bam": a["bam"], "fasta": a["fasta"], "kw": {"minabs": 1, "minrel": 0.1, "multi_allelics": True}}},
         {"id": "unphase", "cmd": "unphase", "names": names, "args": {"vcf": files["A_phased"]}},
     ]
